@@ -3,6 +3,8 @@ import DendroModel.Theory.C17Perm
 import DendroModel.Theory.C17Ext
 import DendroModel.Theory.C17Gamma
 import DendroModel.Theory.C17Final
+import DendroModel.Theory.C17Lists
+import DendroModel.Gen.C17Kernels
 /-! C17 — property theorems about the definitions that `drv_c17` executes (`Model/C17.lean`).
 Numbers are read in ℚ through `Frac.toRat`; `WFT t` says every edge length of `t` is a fraction with non-zero
 denominator (all values arriving over the protocol are).  Specification vocabulary (`Theory/C17*.lean`):
@@ -19,7 +21,12 @@ lengths agree within `ε`, `fage v` the age `calc_node_ages` assigns without for
   `lineages_between_speciations_all` — clause (a)
 * `length_eq_def`, `sackin_eq_def`, `nbar_eq_def`, `colless_eq_def`, `b1_eq_def`, `treeness_eq_def`, `gamma_loop_eq_sums`,
   `colless_yule_rational`, `pda_yule_norms_spec`, `gamma_eq_def_partial`, `gamma_succeeds`, `gamma_eq_def` (with `lineages_between_speciations`) — clause (c)
-* `stats_perm_invariant_partial` (all but gamma), `gamma_perm_invariant`, `stats_perm_invariant` — child-order independence. -/
+* `stats_perm_invariant_partial` (all but gamma), `gamma_perm_invariant`, `stats_perm_invariant` — child-order independence.
+* tie A (`Gen/C17Kernels.lean`, regenerated from treemeasure.py / _tree.py on every run): `bridge_b1`, `bridge_colless_loop`,
+  `bridge_colless_norms`, `bridge_norm_tables`, `bridge_euler`, `bridge_sackin`, `bridge_treeness`, `bridge_gamma_loop`,
+  `bridge_gamma_ret`, `bridge_setlen`, `bridge_ultra`, `bridge_lineages_depths` — the regenerated kernels equal the model's.
+* list forms and `Node` methods: `node_ages_sorted_spec`, `coal_intervals_spec`, `root_distance_list_spec`,
+  `distance_from_tip_spec`, `distance_from_root_spec`. -/
 namespace DendroModel.C17.Aux
 open DendroModel DendroModel.C17
 
@@ -1291,5 +1298,497 @@ example : AWF (.node 0 ⟨1, 1⟩ none [.node 1 ⟨2, 1⟩ none []]) ∧
 example : calcNodeAges ⟨some Frac.one, false, false⟩
     (.node 0 none none none [.node 1 (some 0) (some ⟨1, 1⟩) none [], .node 2 (some 1) (some ⟨3, 1⟩) none []])
     = .error .ultra := by rfl
+
+end DendroModel.C17
+
+namespace DendroModel.C17.Aux
+open DendroModel DendroModel.C17
+
+theorem kabs_eq (x : ℚ) : C17Kernels.kabs x = |x| := by
+  unfold C17Kernels.kabs
+  split
+  · rename_i h; exact (abs_of_neg h).symm
+  · rename_i h; exact (abs_of_nonneg (not_lt.mp h)).symm
+
+theorem absDiff_cast (a b : Nat) : ((absDiff a b : ℕ) : ℚ) = |(b : ℚ) - (a : ℚ)| := by
+  unfold absDiff
+  split
+  · rename_i h
+    rw [Nat.cast_sub h, abs_of_nonneg]
+    have : (a : ℚ) ≤ b := by exact_mod_cast h
+    linarith
+  · rename_i h
+    have h' : b ≤ a := by omega
+    rw [Nat.cast_sub h', abs_of_nonpos]
+    · ring
+    · have : (b : ℚ) ≤ a := by exact_mod_cast h'
+      linarith
+
+/-- the regenerated clamp of `set_edge_lengths_from_node_ages` (applied only when a minimum is given) -/
+def clampK (m : Option ℚ) (e : ℚ) : ℚ :=
+  match m with
+  | some m => if C17Kernels.setlenClampTest e m then C17Kernels.setlenClampVal e m else e
+  | none => e
+
+theorem clampK_eq (m : Option ℚ) (pa a : ℚ) : clampK m (C17Kernels.setlenRaw pa a) = newLenQ m pa a := by
+  cases m with
+  | none => simp [clampK, newLenQ, C17Kernels.setlenRaw]
+  | some m =>
+    simp only [clampK, newLenQ]
+    cases hb : C17Kernels.setlenClampTest (C17Kernels.setlenRaw pa a) m
+    · have hb' := of_decide_eq_false hb
+      simp only [C17Kernels.setlenRaw] at hb'
+      simp only [Bool.false_eq_true, if_false, C17Kernels.setlenRaw]
+      rw [max_eq_right (by linarith)]
+    · have hb' := of_decide_eq_true hb
+      simp only [C17Kernels.setlenRaw] at hb'
+      simp only [if_true, C17Kernels.setlenClampVal, C17Kernels.setlenRaw]
+      rw [max_eq_left (by linarith)]
+
+end DendroModel.C17.Aux
+
+namespace DendroModel.C17
+open DendroModel DendroModel.C17.Aux
+
+
+
+/-! ## tie A: the kernels regenerated from the current source (`Gen/C17Kernels.lean`) equal the model's -/
+
+/-- B1: the regenerated loop step is the model's: the root is skipped, the accumulator starts at 0, a leaf carries 0, an
+internal node whose children's maximum is `m` carries `m + 1` and adds `1/(m + 1)`. -/
+theorem bridge_b1 :
+    C17Kernels.b1SkipsRoot = true ∧ (b1AccL []).2.toRat = C17Kernels.b1Init ∧
+    (∀ i x l s, (((b1Acc (.node i x l s [])).1 : ℕ) : ℚ) = C17Kernels.b1Leaf ∧
+      (b1Acc (.node i x l s [])).2.toRat = C17Kernels.b1Init) ∧
+    (∀ i x l s c cs, (((b1Acc (.node i x l s (c :: cs))).1 : ℕ) : ℚ) = C17Kernels.b1Node ((b1AccL (c :: cs)).1 : ℚ) ∧
+      (b1Acc (.node i x l s (c :: cs))).2.toRat
+        = C17Kernels.b1Acc (b1AccL (c :: cs)).2.toRat ((b1AccL (c :: cs)).1 : ℚ)) := by
+  refine ⟨by decide, by simp [b1AccL, Frac.zero_toRat, C17Kernels.b1Init], ?_, ?_⟩
+  · intro i x l s
+    simp [b1Acc, Frac.zero_toRat, C17Kernels.b1Leaf, C17Kernels.b1Init]
+  · intro i x l s c cs
+    obtain ⟨_, h2, _⟩ := b1AccL_spec (c :: cs)
+    constructor
+    · simp only [b1Acc, C17Kernels.b1Node]; push_cast; ring
+    · simp only [b1Acc, C17Kernels.b1Acc]
+      rw [Frac.add_toRat h2 (Frac.mk'_wf _ _), Frac.mk'_toRat _ (Nat.succ_ne_zero _)]
+      push_cast; ring
+
+/-- Colless, the loop: arity 2, a leaf counts 1, a node with children (child 0, child 1) of `la`, `lb` leaves counts
+`lb + la` and adds `|lb − la|`. -/
+theorem bridge_colless_loop :
+    C17Kernels.collessArity = 2 ∧
+    (∀ i x l s, ∃ n c, collessAcc (.node i x l s []) = .ok (n, c) ∧ (n : ℚ) = C17Kernels.collessLeaf ∧ c = 0 ∧
+      C17Kernels.collessLeafCount 0 = 1) ∧
+    (∀ i x l s a b la ca lb cb, collessAcc a = .ok (la, ca) → collessAcc b = .ok (lb, cb) →
+      ∃ n c, collessAcc (.node i x l s [a, b]) = .ok (n, c) ∧ (n : ℚ) = C17Kernels.collessNode la lb ∧
+        (c : ℚ) = C17Kernels.collessAcc ((ca + cb : ℕ) : ℚ) la lb) := by
+  refine ⟨rfl, ?_, ?_⟩
+  · intro i x l s
+    exact ⟨1, 0, by simp [collessAcc], by simp [C17Kernels.collessLeaf], rfl, by simp [C17Kernels.collessLeafCount]⟩
+  · intro i x l s a b la ca lb cb ha hb
+    refine ⟨lb + la, ca + cb + absDiff lb la, by simp [collessAcc, ha, hb], ?_, ?_⟩
+    · simp only [C17Kernels.collessNode]; push_cast; ring
+    · simp only [C17Kernels.collessAcc, kabs_eq]; push_cast; rw [absDiff_cast, abs_sub_comm]
+
+/-- Colless, the normalisations: whenever the model returns a value it is the regenerated formula applied to Colless'
+index and the leaf count — `max` and raw exactly; `yule` with the two logarithms and Euler's constant handed in
+(`k = euler − 1 − ln 2`); `pda` as `collessPdaRat² · collessPdaRad` (the value is `collessPdaRat · √collessPdaRad`). -/
+theorem bridge_colless_norms (t : T) :
+    (∀ r, colless .none t = .ok r → r.toRat = C17Kernels.collessRaw (collessDef t) (nLeaves t)) ∧
+    (∀ r, colless .max t = .ok r → r.toRat = C17Kernels.collessMax (collessDef t) (nLeaves t)) ∧
+    (∀ r, colless .pdaSq t = .ok r →
+      r.toRat = C17Kernels.collessPdaRat (collessDef t) (nLeaves t) ^ 2 * C17Kernels.collessPdaRad (collessDef t) (nLeaves t)) ∧
+    (∀ (lnN k : Frac) (ln2 euler : ℚ) r, lnN.WF → k.WF → k.toRat = euler - 1 - ln2 → collessYuleWith lnN k t = .ok r →
+      r.toRat = C17Kernels.collessYule (collessDef t) (nLeaves t) lnN.toRat ln2 euler) := by
+  have hn : ((nLeaves t : ℕ) : ℚ) ≠ 0 := by exact_mod_cast (Nat.pos_iff_ne_zero.mp (nLeaves_pos t))
+  by_cases hb : binary t = true
+  · refine ⟨?_, ?_, ?_, ?_⟩
+    · intro r h
+      rw [(colless_eq_def t).2.1 hb] at h
+      cases h; simp [C17Kernels.collessRaw, Frac.ofNat_toRat]
+    · intro r h
+      simp only [colless, collessAcc_spec t, hb, if_true] at h
+      split at h
+      · cases h
+      · cases h
+        rw [Frac.mul_toRat (Frac.ofNat_wf _) (Frac.div_wf _ _), Frac.div_toRat (Frac.ofInt_wf _) (Frac.ofInt_wf _),
+          Frac.ofNat_toRat, Frac.ofInt_toRat, Frac.ofInt_toRat]
+        simp only [C17Kernels.collessMax]; push_cast; first | ring | (field_simp; ring)
+    · intro r h
+      obtain ⟨r', hr', hq⟩ := (pda_yule_norms_spec t).1 hb
+      rw [hr'] at h; cases h
+      rw [hq]; simp only [C17Kernels.collessPdaRat, C17Kernels.collessPdaRad]; first | (field_simp; ring) | field_simp
+    · intro lnN k ln2 euler r hl hk hke h
+      obtain ⟨r', hr', hq⟩ := colless_yule_rational lnN k hl hk t hb
+      rw [hr'] at h; cases h
+      rw [hq, hke]; simp only [C17Kernels.collessYule]; first | (field_simp; ring) | field_simp
+  · have hb' : binary t = false := by simpa using hb
+    refine ⟨?_, ?_, ?_, ?_⟩ <;> intros <;> simp_all [colless, collessYuleWith, collessAcc_spec t]
+
+/-- The `normalize` argument of `colless_tree_imbalance` / `sackin_index`: which literal selects which branch of the current
+source, and the defaults — the mapping the correspondence relies on when it sends `colless max` for the default call and
+for `True`, `sackin mean` for the default call, `none` for `None`/`False`. -/
+theorem bridge_norm_tables :
+    C17Kernels.collessNormTable = [("yule", "yule"), ("pda", "pda"), ("max", "max"), ("True", "max"), ("None", "raw"),
+      ("False", "raw"), ("bogus", "refuse")] ∧ C17Kernels.collessDefault = "max" ∧
+    C17Kernels.sackinNormTable = [("yule", "yule"), ("pda", "pda"), ("max", "refuse"), ("True", "true"), ("None", "raw"),
+      ("False", "raw"), ("bogus", "refuse")] ∧ C17Kernels.sackinDefault = "true" := by
+  refine ⟨rfl, rfl, rfl, rfl⟩
+
+/-- `EULERS_CONSTANT` of the current source is Euler's constant to 14 digits. -/
+theorem bridge_euler :
+    (57721566490153 : ℚ) / 10 ^ 14 < (C17Kernels.eulerNum : ℚ) / C17Kernels.eulerDen ∧
+    (C17Kernels.eulerNum : ℚ) / C17Kernels.eulerDen < (57721566490154 : ℚ) / 10 ^ 14 := by
+  norm_num [C17Kernels.eulerNum, C17Kernels.eulerDen]
+
+/-- Sackin / N-bar: the leaf loop counts one per leaf and one per proper ancestor (the leaf itself excluded); the harmonic
+sum of the Yule normalisation runs over `2 ≤ j < n + 1` with term `1/j`; and every value the model returns is the
+regenerated formula applied to Sackin's index `S` and the leaf count `n`. -/
+theorem bridge_sackin (t : T) :
+    (∀ c : ℚ, C17Kernels.sackinLeafInc c = c + 1 ∧ C17Kernels.sackinAncInc c = c + 1 ∧
+      C17Kernels.nbarLeafInc c = c + 1 ∧ C17Kernels.nbarAncInc c = c + 1) ∧
+    C17Kernels.sackinAncInclusive = false ∧ C17Kernels.nbarAncInclusive = false ∧
+    (∀ n : ℚ, C17Kernels.sackinHarmLo n = 2 ∧ C17Kernels.sackinHarmHi n = n + 1) ∧
+    (∀ r, sackin .none t = .ok r → r.toRat = C17Kernels.sackinRaw (sackinDef t) (nLeaves t)) ∧
+    (∀ r, sackin .mean t = .ok r → r.toRat = C17Kernels.sackinTrue (sackinDef t) (nLeaves t)) ∧
+    (∀ r, nBar t = .ok r → r.toRat = C17Kernels.nbarRet (sackinDef t) (nLeaves t)) ∧
+    (∀ r, sackin .yule t = .ok r → r.toRat = C17Kernels.sackinYule (sackinDef t) (nLeaves t)
+      (∑ j ∈ Finset.Icc 2 (nLeaves t), C17Kernels.sackinHarmTerm (j : ℚ))) ∧
+    (∀ r, sackin .pdaSq t = .ok r →
+      r.toRat = C17Kernels.sackinPdaRat (sackinDef t) (nLeaves t) ^ 2 * C17Kernels.sackinPdaRad (sackinDef t) (nLeaves t)) := by
+  have hn : ((nLeaves t : ℕ) : ℚ) ≠ 0 := by exact_mod_cast (Nat.pos_iff_ne_zero.mp (nLeaves_pos t))
+  obtain ⟨_, ⟨rp, hrp, hqp⟩, ⟨ry, hry, hqy⟩, ⟨rm, hrm, hqm⟩⟩ := pda_yule_norms_spec t
+  refine ⟨?_, rfl, rfl, ?_, ?_, ?_, ?_, ?_, ?_⟩
+  · intro c
+    refine ⟨?_, ?_, ?_, ?_⟩ <;>
+      simp only [C17Kernels.sackinLeafInc, C17Kernels.sackinAncInc, C17Kernels.nbarLeafInc, C17Kernels.nbarAncInc] <;>
+      first | rfl | ring
+  · intro n
+    refine ⟨?_, ?_⟩ <;> simp only [C17Kernels.sackinHarmLo, C17Kernels.sackinHarmHi] <;> first | rfl | ring
+  · intro r h
+    rw [(nbar_eq_def t).2.1] at h; cases h
+    simp [C17Kernels.sackinRaw, Frac.ofNat_toRat]
+  · intro r h
+    rw [hrm] at h; cases h; rw [hqm]; simp [C17Kernels.sackinTrue]
+  · intro r h
+    rw [← (nbar_eq_def t).2.2.1, hrm] at h; cases h; rw [hqm]; simp [C17Kernels.nbarRet]
+  · intro r h
+    rw [hry] at h; cases h; rw [hqy]
+    simp only [C17Kernels.sackinYule, C17Kernels.sackinHarmTerm]; first | (field_simp; ring) | field_simp
+  · intro r h
+    rw [hrp] at h; cases h; rw [hqp]
+    simp only [C17Kernels.sackinPdaRat, C17Kernels.sackinPdaRad]; first | (field_simp; ring) | field_simp
+
+/-- treeness: the root is skipped; below it a leaf's length goes to `external`, any other node's to `internal`; the result
+is `internal / (external + internal)`. -/
+theorem bridge_treeness :
+    C17Kernels.treenessSkipsRoot = true ∧
+    (∀ n x (l : Frac) s cs (i e : Frac), i.WF → e.WF → l.WF → treenessAccL cs = .ok (i, e) →
+      ∃ i' e', treenessAcc (.node n x (some l) s cs) = .ok (i', e') ∧
+        i'.toRat = (if cs.isEmpty then C17Kernels.treenessLeafInt e.toRat i.toRat l.toRat
+                    else C17Kernels.treenessNodeInt e.toRat i.toRat l.toRat) ∧
+        e'.toRat = (if cs.isEmpty then C17Kernels.treenessLeafExt e.toRat i.toRat l.toRat
+                    else C17Kernels.treenessNodeExt e.toRat i.toRat l.toRat)) ∧
+    (∀ t : T, WFT t → NoNone t → ∀ r, treeness t = .ok r →
+      r.toRat = C17Kernels.treenessRet (intLenL t.cs) (extLenL t.cs)) := by
+  refine ⟨rfl, ?_, ?_⟩
+  · intro n x l s cs i e hi he hl h
+    by_cases hc : cs.isEmpty = true
+    · refine ⟨i, e + l, by simp [treenessAcc, h, hc], by simp [hc, C17Kernels.treenessLeafInt], ?_⟩
+      simp [hc, C17Kernels.treenessLeafExt, Frac.add_toRat he hl]
+    · have hc' : cs.isEmpty = false := by simpa using hc
+      refine ⟨i + l, e, by simp [treenessAcc, h, hc'], ?_, by simp [hc', C17Kernels.treenessNodeExt]⟩
+      simp [hc', C17Kernels.treenessNodeInt, Frac.add_toRat hi hl]
+  · intro t hw hn r h
+    obtain ⟨h0, h1⟩ := treeness_eq_def t hw hn
+    by_cases hz : extLenL t.cs + intLenL t.cs = 0
+    · rw [h0 hz] at h; cases h
+    · obtain ⟨r', hr', hq⟩ := h1 hz
+      rw [hr'] at h; cases h
+      rw [hq]; simp only [C17Kernels.treenessRet] <;> first | rfl | (congr 1; ring) | (field_simp; ring)
+
+/-- Pybus–Harvey gamma, the loops: bifurcating nodes (arity 2) are the speciation events, every other node is counted;
+ages are sorted in descending order; an interval is `older − age`, the last one the youngest age itself; the
+accumulation loop runs over `2 ≤ i < n` reading `g[i − 2]`, and one round of the model's `gammaLoop` is the regenerated
+round; the last interval read is `g[n − 2]`. -/
+theorem bridge_gamma_loop :
+    C17Kernels.gammaSpecArity = 2 ∧ C17Kernels.gammaSortDesc = true ∧
+    (∀ n : ℚ, C17Kernels.gammaCountInc n = n + 1 ∧ C17Kernels.gammaLoopLo n = 2 ∧ C17Kernels.gammaLoopHi n = n ∧
+      C17Kernels.gammaLoopIdx n = n - 2 ∧ C17Kernels.gammaLastIdx n = n - 2) ∧
+    C17Kernels.gammaTInit = 0 ∧ C17Kernels.gammaAccumInit = 0 ∧
+    (∀ a b r : Frac, a.WF → b.WF → (intervals (a :: b :: [r])).head? = some (a - b) ∧
+      (a - b).toRat = C17Kernels.gammaInterval a.toRat b.toRat ∧ C17Kernels.gammaNextOlder a.toRat b.toRat = b.toRat) ∧
+    (∀ a : Frac, intervals [a] = [a] ∧ C17Kernels.gammaLast a.toRat = a.toRat) ∧
+    (∀ (i : Nat) (g : Frac) (gs : List Frac) (tt acc : Frac), g.WF → tt.WF → acc.WF →
+      ∃ tt' acc', gammaLoop i (g :: gs) tt acc = gammaLoop (i + 1) gs tt' acc' ∧
+        tt'.toRat = C17Kernels.gammaLoopT tt.toRat acc.toRat i g.toRat ∧
+        acc'.toRat = C17Kernels.gammaLoopAccum tt.toRat acc.toRat i g.toRat) := by
+  refine ⟨rfl, rfl, ?_, rfl, rfl, ?_, ?_, ?_⟩
+  · intro n
+    refine ⟨?_, ?_, ?_, ?_, ?_⟩ <;>
+      simp only [C17Kernels.gammaCountInc, C17Kernels.gammaLoopLo, C17Kernels.gammaLoopHi, C17Kernels.gammaLoopIdx,
+        C17Kernels.gammaLastIdx] <;> first | rfl | ring
+  · intro a b r ha hb
+    exact ⟨by simp [intervals], by simp [C17Kernels.gammaInterval, Frac.sub_toRat ha hb], rfl⟩
+  · intro a; exact ⟨rfl, rfl⟩
+  · intro i g gs tt acc hg ht ha
+    have hm : (Frac.ofNat i * g).WF := Frac.mul_wf _ _
+    have ht' : (tt + Frac.ofNat i * g).WF := Frac.add_wf _ _
+    refine ⟨tt + Frac.ofNat i * g, acc + (tt + Frac.ofNat i * g), by simp [gammaLoop], ?_, ?_⟩
+    · rw [Frac.add_toRat ht hm, Frac.mul_toRat (Frac.ofNat_wf i) hg, Frac.ofNat_toRat]
+      simp only [C17Kernels.gammaLoopT] <;> first | rfl | ring
+    · rw [Frac.add_toRat ha ht', Frac.add_toRat ht hm, Frac.mul_toRat (Frac.ofNat_wf i) hg, Frac.ofNat_toRat]
+      simp only [C17Kernels.gammaLoopAccum] <;> first | rfl | ring
+
+/-- Pybus–Harvey gamma, the closing formula.  With `T`, `accum` as the loop leaves them, `g` the last interval and
+`tt = T + n g` the model's total: the model's numerator `accum/(n−2) − tt/2` and its signed square
+`sign(num) · num² · 12 (n−2) / tt²` are the regenerated return value `gammaRetRat · √gammaRetRad`, squared with its sign
+(for `tt > 0`, which `gamma_succeeds` proves on the domain). -/
+theorem bridge_gamma_ret (T accum n g : ℚ) (hn : n - 2 ≠ 0) (hT : 0 < T + n * g) :
+    C17Kernels.gammaTotal T n g = T + n * g ∧
+    C17Kernels.gammaRetRat T accum n g ^ 2 * C17Kernels.gammaRetRad T accum n g
+      = (accum / (n - 2) - (T + n * g) / 2) ^ 2 * (12 * (n - 2)) / (T + n * g) ^ 2 ∧
+    (C17Kernels.gammaRetRat T accum n g < 0 ↔ accum / (n - 2) - (T + n * g) / 2 < 0) := by
+  have hT' : T + n * g ≠ 0 := ne_of_gt hT
+  refine ⟨rfl, ?_, ?_⟩
+  · simp only [C17Kernels.gammaRetRat, C17Kernels.gammaRetRad]; first | (field_simp; ring) | field_simp
+  · simp only [C17Kernels.gammaRetRat, mul_one]
+    rw [div_neg_iff]
+    constructor
+    · rintro (⟨_, h⟩ | ⟨h, _⟩)
+      · linarith
+      · exact h
+    · intro h; exact Or.inr ⟨h, hT⟩
+
+/-- `set_edge_lengths_from_node_ages`, one edge: the model's `newLen` is the regenerated difference, clamp test, clamp value
+and negativity test; the defaults of the current source are minimum 0, no error. -/
+theorem bridge_setlen (minLen : Option Frac) (hm : ∀ m, minLen = some m → m.WF) (errNeg : Bool) (pa a : Frac)
+    (hpa : pa.WF) (ha : a.WF) :
+    C17Kernels.setlenDefaultMin = 0 ∧ C17Kernels.setlenDefaultErr = false ∧
+    (errNeg = true ∧ C17Kernels.setlenNegTest
+        (clampK (minLen.map Frac.toRat) (C17Kernels.setlenRaw pa.toRat a.toRat)) = true →
+      newLen minLen errNeg pa a = .error .value) ∧
+    (¬ (errNeg = true ∧ C17Kernels.setlenNegTest
+        (clampK (minLen.map Frac.toRat) (C17Kernels.setlenRaw pa.toRat a.toRat)) = true) →
+      ∃ r, newLen minLen errNeg pa a = .ok r ∧
+        r.toRat = clampK (minLen.map Frac.toRat) (C17Kernels.setlenRaw pa.toRat a.toRat)) := by
+  refine ⟨rfl, rfl, ?_⟩
+  obtain ⟨h1, h2⟩ := newLen_spec hm errNeg hpa ha
+  simp only [clampK_eq, C17Kernels.setlenNegTest, decide_eq_true_eq]
+  refine ⟨fun h => h1 h, fun h => ?_⟩
+  obtain ⟨e, he, _, hq⟩ := h2 h
+  exact ⟨e, he, hq⟩
+
+/-- `calc_node_ages`, the comparisons: a numeric precision disables the check iff the regenerated test says so; the age from
+the first child and the age another child would give are the regenerated sums; a child is rejected iff the regenerated
+deviation exceeds the precision by the regenerated comparison. -/
+theorem bridge_ultra (p age : Frac) (hp : p.WF) (hage : age.WF) (c : AT) (hc : c.age.WF) (hl : (olen c.len).WF) :
+    (Cfg.checking ⟨some p, false, false⟩ = if C17Kernels.precSkips p.toRat then none else some p) ∧
+    (c.age + olen c.len).toRat = C17Kernels.ultraFirst c.age.toRat (olen c.len).toRat ∧
+    (∀ cs, othersWithin p age (c :: cs) =
+      (if C17Kernels.ultraRejects
+            (C17Kernels.ultraDev age.toRat (C17Kernels.ultraOther c.age.toRat (olen c.len).toRat)) p.toRat
+       then false else othersWithin p age cs)) := by
+  refine ⟨?_, ?_, ?_⟩
+  · simp only [Cfg.checking, Bool.or_self, Bool.false_eq_true, if_false, C17Kernels.precSkips]
+    by_cases h : Frac.lt p Frac.zero = true
+    · have := (Frac.lt_iff hp Frac.zero_wf).mp h
+      rw [Frac.zero_toRat] at this
+      simp [h, this]
+    · have hf : Frac.lt p Frac.zero = false := by simpa using h
+      have := (Frac.lt_false_iff hp Frac.zero_wf).mp hf
+      rw [Frac.zero_toRat] at this
+      simp [hf, not_lt.mpr this]
+  · simp [C17Kernels.ultraFirst, Frac.add_toRat hc hl]
+  · intro cs
+    have hs : (c.age + olen c.len).WF := Frac.add_wf _ _
+    have hd : (age - (c.age + olen c.len)).WF := Frac.sub_wf _ _
+    have hq : (Frac.abs (age - (c.age + olen c.len))).toRat
+        = C17Kernels.ultraDev age.toRat (C17Kernels.ultraOther c.age.toRat (olen c.len).toRat) := by
+      rw [Frac.abs_toRat, Frac.sub_toRat hage hs, Frac.add_toRat hc hl]
+      simp [C17Kernels.ultraDev, C17Kernels.ultraOther, kabs_eq]
+    simp only [othersWithin, C17Kernels.ultraRejects, decide_eq_true_eq]
+    by_cases h : Frac.lt p (Frac.abs (age - (c.age + olen c.len))) = true
+    · have := (Frac.lt_iff hp (Frac.abs_wf hd)).mp h
+      rw [hq] at this
+      simp [h, this]
+    · have hf : Frac.lt p (Frac.abs (age - (c.age + olen c.len))) = false := by simpa using h
+      have := (Frac.lt_false_iff hp (Frac.abs_wf hd)).mp hf
+      rw [hq] at this
+      simp [hf, not_lt.mpr this]
+
+/-- `num_lineages_at`, `calc_node_root_distances`, `resolve_node_depths`, `resolve_node_ages`: the model's edge test and
+steps are the regenerated ones. -/
+theorem bridge_lineages_depths (d prd rd l : Frac) (hd : d.WF) (hprd : prd.WF) (hrd : rd.WF) (hl : l.WF) :
+    crosses d prd rd = C17Kernels.lineageCounts rd.toRat prd.toRat d.toRat ∧
+    (∀ k : ℚ, C17Kernels.lineageInc k = k + 1) ∧
+    C17Kernels.rootDistRoot = 0 ∧ C17Kernels.depthRoot = 0 ∧
+    (l + prd).toRat = C17Kernels.rootDistStep l.toRat prd.toRat ∧
+    (l + prd).toRat = C17Kernels.depthStep l.toRat prd.toRat ∧
+    (d - rd).toRat = C17Kernels.resolveAge d.toRat rd.toRat := by
+  refine ⟨?_, fun k => rfl, rfl, rfl, ?_, ?_, ?_⟩
+  · rw [Bool.eq_iff_iff]
+    simp only [crosses, C17Kernels.lineageCounts, Bool.or_eq_true, Bool.and_eq_true, decide_eq_true_eq,
+      Frac.beq_iff hrd hd, Frac.le_iff hd hrd, Frac.lt_iff hprd hd, ge_iff_le]
+  · simp [C17Kernels.rootDistStep, Frac.add_toRat hl hprd]
+  · simp [C17Kernels.depthStep, Frac.add_toRat hl hprd]
+  · simp [C17Kernels.resolveAge, Frac.sub_toRat hd hrd]
+
+
+
+/-! ## list forms and the `Node` methods -/
+
+/-- `Tree.node_ages` / `Tree.internal_node_ages`: they fail exactly when `calc_node_ages` fails (same error); the list is a
+permutation of what `calc_node_ages` returns; and without a forcing option it is ascending and is exactly the ages
+(first-child chain distances) of all nodes, or of the internal nodes when so requested. -/
+theorem node_ages_sorted_spec (cfg : Cfg) (io : Bool) (t : T) :
+    (∀ e, nodeAges cfg io t = .error e ↔ calcNodeAges cfg t = .error e) ∧
+    (∀ r, nodeAges cfg io t = .ok r → ∃ a, calcNodeAges cfg t = .ok a ∧ r.Perm (a.returned io)) ∧
+    (cfg.forceMax = false → cfg.forceMin = false → ∀ r, nodeAges cfg io t = .ok r →
+      r.Pairwise (fun x y => x.toRat ≤ y.toRat) ∧
+      r.Perm (((T.nodes t).filter (fun v => !io || !v.isLeaf)).map fage)) := by
+  refine ⟨?_, ?_, ?_⟩
+  · intro e
+    unfold nodeAges
+    cases calcNodeAges cfg t <;> simp
+  · intro r h
+    unfold nodeAges at h
+    cases hc : calcNodeAges cfg t with
+    | error e => rw [hc] at h; cases h
+    | ok a =>
+      rw [hc] at h
+      simp only [Except.ok.injEq] at h
+      exact ⟨a, rfl, h ▸ sortAsc_perm _⟩
+  · intro h1 h2 r h
+    unfold nodeAges at h
+    rw [calcNodeAges_nonforce h1 h2] at h
+    by_cases hall : allWithin cfg.checking t = true
+    · rw [if_pos hall] at h
+      simp only [Except.ok.injEq] at h
+      have hp : ((annot t).returned io).Perm (((T.nodes t).filter (fun v => !io || !v.isLeaf)).map fage) := by
+        have := returned_perm io (annot t)
+        rw [flagged_annot, List.filter_map, List.map_map] at this
+        exact this
+      have hwf : ∀ y ∈ (annot t).returned io, y.WF := by
+        intro y hy
+        obtain ⟨v, _, rfl⟩ := List.mem_map.mp (hp.subset hy)
+        exact fage_wf v
+      subst h
+      exact ⟨sortAsc_asc _ hwf, (sortAsc_perm _).trans hp⟩
+    · rw [if_neg hall] at h
+      cases h
+
+/-- `Tree.coalescence_intervals`: the intervals are the first (smallest) age followed by the differences of consecutive
+sorted ages: their running sums give back the sorted ages of `node_ages()`, and every difference is non-negative. -/
+theorem coal_intervals_spec (t : T) (r : List Frac) (h : coalIntervals t = .ok r) :
+    ∃ ages, nodeAges ⟨some defaultPrec, false, false⟩ false t = .ok ages ∧
+      runSum 0 (r.map Frac.toRat) = ages.map Frac.toRat ∧ ∀ y ∈ r.tail, 0 ≤ y.toRat := by
+  unfold coalIntervals at h
+  cases hn : nodeAges ⟨some defaultPrec, false, false⟩ false t with
+  | error e => rw [hn] at h; cases h
+  | ok ages =>
+    rw [hn] at h
+    obtain ⟨hasc, hperm⟩ := (node_ages_sorted_spec ⟨some defaultPrec, false, false⟩ false t).2.2 rfl rfl ages hn
+    have hwf : ∀ y ∈ ages, y.WF := by
+      intro y hy
+      obtain ⟨v, _, rfl⟩ := List.mem_map.mp (hperm.subset hy)
+      exact fage_wf v
+    cases ages with
+    | nil => cases h
+    | cons a as =>
+      simp only [Except.ok.injEq] at h
+      subst h
+      have ha := hwf a List.mem_cons_self
+      have has : ∀ y ∈ as, y.WF := fun y hy => hwf y (List.mem_cons_of_mem _ hy)
+      refine ⟨a :: as, rfl, ?_, ?_⟩
+      · simp only [List.map_cons, runSum, zero_add]
+        rw [runSum_diffsFrom as a ha has]
+      · exact diffsFrom_nonneg as a ha has hasc
+
+/-- The list `calc_node_root_distances` returns (pre-order; leaves only or every node) holds the lengths of the paths from the
+root (`below`), and `max_distance_from_root` is the larger value of `minmax_leaf_distance_from_root`. -/
+theorem root_distance_list_spec (t : T) (hw : WFT t) (hn : NoNone t) (lo : Bool) :
+    (∃ r, rootDistList lo t = .ok r ∧
+      r.map Frac.toRat = ((below t).filter (fun q => !lo || q.1.isLeaf)).map (·.2)) ∧
+    maxDistFromRoot t = (match minmaxLeafDist t with
+      | .ok p => .ok p.2
+      | .error e => .error e) := by
+  obtain ⟨r, hr, hl⟩ := depths_all t Frac.zero Frac.zero_wf hw hn
+  constructor
+  · refine ⟨(r.filter (fun p => !lo || p.2.1)).map (·.2.2), by simp [rootDistList, rootDepths, hr], ?_⟩
+    have h2 := congrArg (List.map (fun p : Nat × Bool × ℚ => (p.2.1, p.2.2))) hl
+    simp only [List.map_map, Frac.zero_toRat, add_zero] at h2
+    have e1 : (r.filter (fun p => !lo || p.2.1)).map (fun p => p.2.2.toRat)
+        = ((r.map (fun p => (p.2.1, p.2.2.toRat))).filter (fun b => !lo || b.1)).map (·.2) := by
+      rw [List.filter_map, List.map_map]; rfl
+    have e2 : ((below t).filter (fun q => !lo || q.1.isLeaf)).map (·.2)
+        = (((below t).map (fun q => (q.1.isLeaf, q.2))).filter (fun b => !lo || b.1)).map (·.2) := by
+      rw [List.filter_map, List.map_map]; rfl
+    rw [List.map_map, e2]
+    have e3 : (Frac.toRat ∘ fun (x : Nat × Bool × Frac) => x.2.2) = fun p => p.2.2.toRat := rfl
+    rw [e3, e1]
+    congr 2
+  · unfold maxDistFromRoot rootDistList minmaxLeafDist
+    simp only [rootDepths, hr, Bool.not_true, Bool.false_or]
+    cases (r.filter (·.2.1)).map (·.2.2) <;> rfl
+
+/-- `Node.distance_from_tip()` (fresh nodes): the largest distance to a tip below, for every node (`None` length = 0). -/
+theorem distance_from_tip_spec (t : T) (hw : WFT t) :
+    distFromTip t = (T.nodes t).map (fun v => (v.id, page maxList v)) ∧
+    ∀ v ∈ T.nodes t, (tipMax v).toRat ∈ tipDists v ∧ ∀ d ∈ tipDists v, d ≤ (tipMax v).toRat := by
+  constructor
+  · simp [distFromTip, tipMax_eq_page]
+  · intro v hv
+    rw [tipMax_eq_page]
+    exact page_spec picks_max v (nodes_wft t hw v hv)
+
+/-- `Node.distance_from_root()` (no `None` length below the root): every node answers with the length of its path from the
+root PLUS the seed's own edge length (`None` = 0) — the walk up the `parent_node` chain includes the node without
+parent.  On a seed without length (or of length 0) this is the distance from the root. -/
+theorem distance_from_root_spec (t : T) (hw : WFT t) (hn : NoNone t) :
+    (distFromRoot t).map (fun p => (p.1, exRat p.2)) = (below t).map (fun q => (q.1.id, some (q.2 + qlen t.len))) := by
+  cases t with
+  | node i x l s cs =>
+    have hlw : (olen l).WF := hw.1
+    have hanc : (olen l + Frac.zero).WF := Frac.add_wf _ _
+    obtain ⟨rc, hrc, hl⟩ := depthsL_all cs (olen l + Frac.zero) hanc hw.2 hn
+    have hd := distRootL_eq_depths cs (olen l + Frac.zero) l rc hrc
+    have h2 := congrArg (List.map (fun p : Nat × Bool × ℚ => (p.1, some p.2.2))) hl
+    simp only [List.map_map] at h2
+    have hq : (olen l + Frac.zero).toRat = qlen l := by
+      rw [Frac.add_toRat hlw Frac.zero_wf, Frac.zero_toRat, add_zero]; rfl
+    simp only [distFromRoot, distRoot, below, List.map_cons, hd, List.map_map, T.len, T.id, zero_add]
+    congr 1
+    · cases l <;> simp [exRat, qlen, olen, Frac.zero_toRat]
+    · rw [hq] at h2
+      exact h2
+
+/-! ### non-vacuity of the bridge / list-form theorems -/
+
+/-- `bridge_colless_norms`, `bridge_sackin`, `bridge_treeness` on `exTree`: the model does return values there -/
+example : (∃ r, colless .max exTree = .ok r) ∧ (∃ r, colless .pdaSq exTree = .ok r) ∧ (∃ r, sackin .yule exTree = .ok r) ∧
+    (∃ r, nBar exTree = .ok r) ∧ (∃ r, treeness exTree = .ok r) ∧
+    (∃ r, collessYuleWith ⟨1, 1⟩ ⟨-1, 2⟩ exTree = .ok r) ∧ (⟨-1, 2⟩ : Frac).toRat = (1 : ℚ) / 2 - 1 - 0 :=
+  ⟨⟨_, rfl⟩, ⟨_, rfl⟩, ⟨_, rfl⟩, ⟨_, rfl⟩, ⟨_, rfl⟩, ⟨_, rfl⟩, by norm_num [Frac.toRat]⟩
+
+/-- `bridge_gamma_ret`: `T = 1`, `accum = 1`, `n = 3`, last interval `1` -/
+example : (3 : ℚ) - 2 ≠ 0 ∧ (0 : ℚ) < 1 + 3 * 1 := by norm_num
+
+/-- `bridge_setlen` / `bridge_ultra` / `bridge_lineages_depths`: well-formed fractions exist, a minimum can be given -/
+example : (∀ m, (some Frac.zero : Option Frac) = some m → m.WF) ∧ (⟨2, 1⟩ : Frac).WF ∧ (⟨1, 2⟩ : Frac).WF := by
+  refine ⟨?_, by simp [Frac.WF], by simp [Frac.WF]⟩
+  intro m hm; cases hm; exact Frac.zero_wf
+
+/-- `node_ages_sorted_spec`, `coal_intervals_spec` on `exTree`: ages 0,0,0,1,2 and intervals 0,0,0,1,1 -/
+example : nodeAges ⟨some Frac.zero, false, false⟩ false exTree = .ok [⟨0, 1⟩, ⟨0, 1⟩, ⟨0, 1⟩, ⟨1, 1⟩, ⟨2, 1⟩] ∧
+    nodeAges ⟨some Frac.zero, false, false⟩ true exTree = .ok [⟨1, 1⟩, ⟨2, 1⟩] ∧
+    coalIntervals exTree = .ok [⟨0, 1⟩, ⟨0, 1⟩, ⟨0, 1⟩, ⟨1, 1⟩, ⟨1, 1⟩] := ⟨rfl, rfl, rfl⟩
+
+/-- `root_distance_list_spec`, `distance_from_tip_spec`, `distance_from_root_spec`: `exTree` meets `WFT` and `NoNone`
+(`exTree_hyps`); the seed's own length is included by `distance_from_root` -/
+example : distFromRoot (.node 0 none (some ⟨3, 1⟩) none [.node 1 (some 0) (some ⟨1, 1⟩) none []])
+    = [(0, .ok ⟨3, 1⟩), (1, .ok ⟨4, 1⟩)] ∧ maxDistFromRoot exTree = .ok ⟨2, 1⟩ ∧
+    rootDistList false exTree = .ok [⟨0, 1⟩, ⟨1, 1⟩, ⟨2, 1⟩, ⟨2, 1⟩, ⟨2, 1⟩] := ⟨rfl, rfl, rfl⟩
 
 end DendroModel.C17
